@@ -202,6 +202,10 @@ func helpApp() *cli.Cli {
 	app.Floats64(cli.Floats64Opt{Name: "r", Value: []float64{0.123456789, 16777217}})
 	app.String(cli.StringOpt{Name: "blank", Value: " ", Desc: "blank default"})
 	app.Float64Opt("ratio", 2.5, "a ratio")
+	app.BoolOpt("q Q quiet silent", false, "two shorts, two longs")
+	app.StringOpt("long-only", "", "no short")
+	app.String(cli.StringOpt{Name: "e", Desc: "env with blanks", EnvVar: " DS_E1   DS_E2 "})
+	app.String(cli.StringArg{Name: "DST", Desc: "arg with env", EnvVar: " ", Value: "%H:%M"})
 	app.IntArg("COUNT", 3, "how many")
 	app.StringArg("SRC", "", "the source")
 	app.Command("alpha a", "first", func(c *cli.Cmd) {
